@@ -161,6 +161,13 @@ def fingerprint_public(fp: tuple[Any, ...]) -> Any:
     return json.loads(json.dumps(fp[2:]))
 
 
+def _is_canonical(j: Any) -> Any:
+    try:
+        return bool(j.is_canonical)
+    except Exception as e:  # noqa: BLE001 - e.g. Variable ordering between a variable and its value-marked namesake
+        return f"raised:{type(e).__name__}"
+
+
 def ser_result(kind: str, value: Any) -> Any:
     """Canonical (order-free where the value is a set) serialisation of an operation result."""
     if kind == "graph":
@@ -182,7 +189,7 @@ def ser_result(kind: str, value: Any) -> Any:
                 "right": ser_var(j.right),
                 "cond": [ser_var(c) for c in j.conditions],
                 "cond_type": type(j.conditions).__name__,
-                "canonical": bool(j.is_canonical),
+                "canonical": _is_canonical(j),
             }
             for j in value
         ]
